@@ -213,7 +213,7 @@ def io_thread_func(blockshape, store_headers, headers_dict, geom, plane_set_id, 
                    seismic_buffer, seismicfile, minimal_il_reader, trace_length):
     for i in range(blockshape[0]):
         headers = []
-        start_trace = (plane_set_id * blockshape[0] + i) * len(seismicfile.xlines) + geom.xlines[0]
+        start_trace = (geom.ilines[0] + plane_set_id * blockshape[0] + i) * len(seismicfile.xlines) + geom.xlines[0]
         if i < planes_to_read:
             if minimal_il_reader is not None:
                 headers, seismic_buffer[i, 0:len(geom.xlines), 0:trace_length] \
